@@ -82,6 +82,8 @@ type FuncContract struct {
 	Reveal   []string
 	AbstractDiv bool
 	AssumedFrame string
+	Closed   bool
+	AtCalls  []*Clause
 	Effects  []string
 	CondEffects  []*Clause
 	CallRequires []*Clause
@@ -221,6 +223,20 @@ func parseContracts(fset *token.FileSet, f *ast.File, pkgPath string) ([]*FuncCo
 				if rest == "" {
 					cur.AssumedFrame = "assumed"
 				}
+			case "atcall":
+				// atcall CALLEE havoc TARGETS | assume EXPR | count GHOST : interference model for lock acquisition. At every
+				// call of CALLEE made by this function, before the call takes effect: the targets get arbitrary values
+				// (other threads ran while the lock was not held), the ghost counter is incremented, and EXPR (the lock's
+				// invariant, over this function's variables) is assumed.
+				fs := strings.SplitN(rest, " ", 3)
+				if len(fs) != 3 || !(fs[1] == "havoc" || fs[1] == "assume" || fs[1] == "count") {
+					return nil, fmt.Errorf("%s: atcall CALLEE havoc TARGETS | assume EXPR | count GHOST", fset.Position(cm.Pos()))
+				}
+				cl.CbName, cl.Kind, cl.Text = fs[0], "atcall-"+fs[1], strings.TrimSpace(fs[2])
+				cur.AtCalls = append(cur.AtCalls, cl)
+			case "closed":
+				// every call the function makes must be accounted for (contract, model, inlined helper or effect-free library call)
+				cur.Closed = true
 			case "maypanic":
 				cur.MayPanic = true
 			case "cases":
